@@ -149,6 +149,30 @@ def expected(dec, method, args):
             return 'IndexError', None, None
         src = dec['padded'] if g('access_padding', False) else V
         return 'value', src[lo[0]:hi[0], lo[1]:hi[1], lo[2]:hi[2]], (lo, hi)
+    if method in ('read_correlated_diagonal', 'read_anticorrelated_diagonal'):
+        anti = method.startswith('read_anti')
+        p = 'ad' if anti else 'cd'
+        d = g(p + '_id')
+        if anti:
+            pts = [(i, d - i) for i in range(n[0]) if 0 <= d - i < n[1]]
+            ok_id = 0 <= d < n[0] + n[1] - 1
+        else:
+            pts = [(x + d, x) for x in range(n[1]) if 0 <= x + d < n[0]]
+            ok_id = -n[1] < d < n[0]
+        if not ok_id:
+            return 'IndexError', None, None
+        a_, b_ = g('min_' + p + '_idx'), g('max_' + p + '_idx')
+        if a_ is not None and b_ is not None:
+            if not 0 <= a_ < b_ <= len(pts):
+                return 'IndexError', None, None
+            pts = pts[a_:b_]
+        lo, hi = g('min_sample_idx'), g('max_sample_idx')
+        if lo is not None and hi is not None:
+            if not 0 <= lo < hi <= n[2]:
+                return 'IndexError', None, None
+        else:
+            lo, hi = 0, n[2]
+        return 'value', np.array([V[i, x, lo:hi] for (i, x) in pts], dtype=np.float64), None
     if method == 'get_trace':
         i = g('index')
         lo = 0 if g('min_sample_id') is None else g('min_sample_id')
@@ -202,6 +226,8 @@ def run_case(case, tmpdir=None):
                     probs.append(f'preload: {len(f.log)} backend reads after open')
             else:
                 need = blocks_of_box(dec, *box) if box is not None else None
+                if box is None:
+                    f.log.clear()      # (diagonals: read log not specified here)
                 seen = []
                 for (off, req, ret) in f.log:
                     if ret != req:
